@@ -242,7 +242,7 @@ def plan(T, seed=0):
         P.append(('n2-kinds-%s-%s' % (KINDS[ks[0]], KINDS[ks[1]]), dict(n=2, vec_cap=1, param_cap=0, slen=[0, 1], template=[{'kind': ks[0], 'nparams': 0, 'lens': [1, 1, 1]}, {'kind': ks[1], 'nparams': 0, 'lens': [1, 0, 0]}], idmode='two-class')))
     if T:
         P.append(('n1-kindComposite-vec3', dict(n=1, vec_cap=3, param_cap=1, slen=1, template=[{'kind': 0, 'nparams': 1, 'lens': [3]}], idmode='small')))
-        P.append(('n1-kindVariant-2x2', dict(n=1, vec_cap=2, param_cap=1, slen=1, template=[{'kind': 1, 'nparams': 0, 'lens': [2, 2, 2]}], idmode='small')))
+        # (a 2x2 variant shape with free docs was measured at ~10^6 paths / 1 h: left out; 2x1 and 1x2 are covered above)
         P.append(('n3-seq-prim-tuple', dict(n=3, vec_cap=1, param_cap=0, slen=[0, 1], template=[{'kind': 2, 'nparams': 0}, {'kind': 5, 'nparams': 0}, {'kind': 4, 'nparams': 0, 'lens': [1]}], idmode='small')))
     return P
 
